@@ -65,6 +65,26 @@ CLAIMED['C02'] = dict(
     technique='function contracts with ghost coordinates, discharged as integer-theory VCs (goto program -> z3 5.1) on extracted real bodies',
     design='4/C02')
 
+CLAIMED['C01'] = dict(
+    text='Contract proof over the real bodies of align, get_row_size_in_memunits, total_allocated_size_in_bytes, allocate_, create_view and '
+         'the four recreate overloads / constructors: the layout contract (every pixel access of the view built over a block of '
+         'total_allocated_size_in_bytes(dims) bytes lies inside the block; first pixel and rows aligned) is proved on the real bodies for '
+         'unbounded w,h <= 2^20 per listed alignment value (all alignments <= 4096 in the thorough tier); every pixel operation inside the '
+         'image operations is lowered to an ACCESS obligation (view inside one live block), proved for interleaved and planar images.',
+    note=TRUST + 'Bit-aligned images are not claimed (known over-read of sizeof(BitField) bytes at the last pixels, DESIGN 6.8); caller-supplied buffers and '
+         'derived views rely on C02 (every derived pixel is a source pixel); the allocator is a ghost block table.',
+    technique='function contracts (layout contract as callee contract, ghost allocator, representation invariant) discharged as integer-theory VCs (goto program -> z3 5.1) on extracted real bodies',
+    design='4/C01')
+CLAIMED['C10'] = dict(
+    text='Representation invariant (owns exactly one live block of the recorded size and allocator, or none; view inside it; rows aligned) proved '
+         'to be established by every constructor and preserved by copy/move construction, copy/move assignment (both allocator-propagation modes), '
+         'swap and the four recreate overloads, each harness closed by the destructors with the ghost allocator showing no live block and no '
+         'mismatched/double deallocate: leak-freedom over any history of non-throwing operations follows by induction.',
+    note=TRUST + 'Exception paths (try/catch roll-back), element-wise construct/destruct balance and converting copies / any_image are not verified; '
+         'allocator modelled by a three-block ghost table; pixel loops abstracted to ACCESS obligations.',
+    technique='representation-invariant contracts with a ghost allocator, history-closing harnesses, integer-theory VCs (z3 5.1) on extracted real bodies; callee layout contract',
+    design='4/C10')
+
 NOT_APPLICABLE = {
     'C12': 'relates two whole template pipelines through a file/stream and external C libraries; no function contract within reach of a C verifier states what read_image returns after write_view (DESIGN 5)',
     'C13': 'equality of results of different compositions of reader classes/devices/policies over the same bytes is a relational property over I/O histories, not a pre/postcondition of an extractable function (DESIGN 5)',
